@@ -6,6 +6,7 @@ import (
 	"time"
 
 	"github.com/tailscale/setec/types/api"
+	"golang.org/x/sync/errgroup"
 	"golang.org/x/sync/singleflight"
 )
 
@@ -103,12 +104,14 @@ func verifStubWithCancel(parent context.Context) (context.Context, context.Cance
 
 // verifClient is a scripted StoreClient over a symbolic service state.
 type verifClient struct {
-	svc      map[string]*api.SecretValue // the service's active (version, bytes) per name
-	mayFail  bool
-	requests int
-	hang     bool // requests block until their context ends (then fail with its error)
-	mayCancel *verifCtx // the caller of the operation may give up after any request
-	mayLack   bool      // the service may have lost a name the store knows (deleted on the server): requests for it answer api.ErrNotFound
+	svc            map[string]*api.SecretValue // the service's active (version, bytes) per name
+	mayFail        bool
+	requests       int
+	hang           bool      // requests block until their context ends (then fail with its error)
+	mayCancel      *verifCtx // the caller of the operation may give up after any request
+	preferFailures bool
+	honoursCancel  bool // a request made with a context that has already ended fails with that context's error (as an HTTP client does)
+	mayLack        bool // the service may have lost a name the store knows (deleted on the server): requests for it answer api.ErrNotFound
 }
 
 func (c *verifClient) answer(ctx context.Context, name string) (*api.SecretValue, error) {
@@ -120,8 +123,18 @@ func (c *verifClient) answer(ctx context.Context, name string) (*api.SecretValue
 		verifWaitFor(vc)
 		return nil, &verifCtxErr{err: ctx.Err()}
 	}
+	if c.honoursCancel {
+		if vc, isV := ctx.(*verifCtx); isV && vc.expired() {
+			ghostLog("svc.request.cancelled")
+			return nil, &verifCtxErr{err: ctx.Err()}
+		}
+	}
 	if c.mayFail {
-		if nondetBool("svc.fail") {
+		f := nondetBool("svc.fail")
+		if c.preferFailures {
+			replayHint(f) // counterexamples with several independent failures do not depend on the schedule of concurrent tasks
+		}
+		if f {
 			ghostLog("svc.failed")
 			return nil, verifErrInjected
 		}
@@ -285,6 +298,40 @@ func verifStubSFForget(g *singleflight.Group, key string) {
 	assert("flight-in-progress-never-forgotten", verifSF.inflight != key)
 }
 
+// ============ errgroup model ============
+//
+// The tasks of a group run concurrently; the model explores the sequential order of the Go calls. What matters for the
+// properties here is the contract: Wait returns only the FIRST error, and a group made by WithContext cancels its
+// context as soon as one task fails.
+
+var verifEG struct {
+	err    error
+	cancel func()
+}
+
+func verifStubEGWithContext(ctx context.Context) (*errgroup.Group, context.Context) {
+	c2, cancel := verifStubWithCancel(ctx)
+	verifEG.err, verifEG.cancel = nil, cancel
+	return &errgroup.Group{}, c2
+}
+
+func verifStubEGGo(g *errgroup.Group, f func() error) {
+	ghostLog("errgroup.go")
+	if err := f(); err != nil && verifEG.err == nil {
+		verifEG.err = err
+		if verifEG.cancel != nil {
+			verifEG.cancel()
+		}
+	}
+}
+
+func verifStubEGWait(g *errgroup.Group) error {
+	if verifEG.cancel != nil {
+		verifEG.cancel()
+	}
+	return verifEG.err
+}
+
 func verifLogf(format string, args ...any) {}
 
 // ============ sleeping ============
@@ -303,6 +350,7 @@ func verifEnvReset() {
 	verifNowSec, verifNowNS = 0, 0
 	verifSF.keys, verifSF.follower, verifSF.followerFn, verifSF.strict, verifSF.other = nil, false, nil, false, false
 	verifSF.joinPoll, verifSF.onJoin, verifSF.inflight, verifSF.beforeLead = false, nil, "", nil
+	verifEG.err, verifEG.cancel = nil, nil
 	verifSleeps = nil
 	verifLastTimeout = 0
 }
